@@ -143,6 +143,25 @@ pub fn keygen(
     })
 }
 
+/// Key generation with the seed object built through `Seed::from([u8; 32])`: the first n bytes are
+/// the seed, the rest (`tail`) is storage the seed does not own for hashes with n < 32.
+pub fn keygen_seed_from_array(h: HashId, levels: &[Level], seed: &[u8], tail: u8) -> Out<(Vec<u8>, Vec<u8>)> {
+    with_hash!(h, H => {
+        guard(|| {
+            let params: Vec<HssParameter<H>> = levels
+                .iter()
+                .map(|(w, hh)| HssParameter::<H>::new(lmots_alg(*w), lms_alg(*hh)))
+                .collect();
+            let mut arr = [tail; 32];
+            arr[..seed.len()].copy_from_slice(seed);
+            let s = Seed::<H>::from(arr);
+            hbs_lms::keygen::<H>(&params, &s, None)
+                .map(|(sk, vk)| (sk.as_slice().to_vec(), vk.as_slice().to_vec()))
+                .map_err(|_| ())
+        })
+    })
+}
+
 /// What the update callback does on its k-th invocation.
 #[derive(Clone, Copy, Debug, PartialEq, Eq)]
 pub enum Cb {
